@@ -14,7 +14,7 @@ echo "== changed tree: tests"; (cd $wt && PYTHONPATH=$wt/src /venv/bin/python -m
 echo "== changed tree: demo"; (cd $wt && TREE=$wt PYTHONPATH=$wt/src /venv/bin/python $dir/demo.py >/tmp/sv_$id.demo1 2>&1; echo "demo rc(changed)=$?"; tail -3 /tmp/sv_$id.demo1)
 for c in $checks; do
   echo "== check $c against changed tree"
-  BATCHIE_REPO=$wt VERIF_OUT=/tmp/sv_out_$id /venv/bin/python ${VERIF_DIR:-/verif}/run_check.py $c --tier quick 2>&1 | tail -3 | cut -c1-400
+  BATCHIE_REPO=$wt VERIF_OUT=/tmp/sv_out_$id /venv/bin/python ${VERIF_DIR:-/verif}/run_check.py $c --tier ${TIER:-quick} 2>&1 | tail -3 | cut -c1-400
 done
 find $wt -name __pycache__ -prune -exec rm -rf {} + 2>/dev/null
 git -C /repo worktree remove --force $wt; rm -rf /tmp/sv_out_$id /tmp/sv_$id.demo0 /tmp/sv_$id.demo1
